@@ -87,6 +87,7 @@ impl Prop for C14 {
             "library_execution_error_buffer",
             "standard_code_lookup",
             "library_execution_error_below_minimum",
+            "library_execution_error_exponent_notation",
         ];
         v.into_iter().map(String::from).collect()
     }
@@ -109,6 +110,7 @@ impl Prop for C14 {
                 queue: QueueCfg::Vec,
                 controllers: 1,
                 tree: sweep_tree(),
+                plain488: false,
             };
             let mut t = base_trace("C14", seed, run, "sweep", cfg.clone());
             let tc = TreeCtx::new(&cfg.tree);
@@ -158,6 +160,7 @@ impl Prop for C14 {
             queue: QueueCfg::Vec,
             controllers: 1,
             tree,
+            plain488: false,
         };
         let mut t = base_trace("C14", seed, run, "monitor", cfg.clone());
         let tc = TreeCtx::new(&cfg.tree);
@@ -198,6 +201,9 @@ impl Prop for C14 {
                     ]);
                     let max = if matches!(c, Contrib::Ese | Contrib::Sre) { 255 } else { 65535 };
                     let p = if g.rng.chance(1, 6) {
+                        // far out of range in exponent notation (beyond the float intermediate too)
+                        Elem::Dec(g.rng.pick(&["1e39", "1E400", "2.5e10", "1e309", "7E+38", "3.5E38", "1.8e308", "9e99", "-1e39", "-4E400", "100000.0e5"]).to_string())
+                    } else if g.rng.chance(1, 6) {
                         // below the minimum of the (unsigned) target
                         Elem::Dec(format!("-{}", 1 + g.rng.below(70000)))
                     } else if g.rng.chance(1, 2) {
@@ -280,6 +286,9 @@ impl Prop for C14 {
                             stats.probe(if *exp == ExpErr::Code(-225) { "library_execution_error_buffer" } else { "library_execution_error_range" });
                             if s.msg.units.iter().any(|u| matches!(u.params.first(), Some(Elem::Dec(d)) if d.starts_with('-'))) {
                                 stats.probe("library_execution_error_below_minimum");
+                            }
+                            if s.msg.units.iter().any(|u| matches!(u.params.first(), Some(Elem::Dec(d)) if d.contains('e') || d.contains('E'))) {
+                                stats.probe("library_execution_error_exponent_notation");
                             }
                             if !is_execution_error(e.code) {
                                 out.push(Finding::new(
